@@ -323,6 +323,7 @@ def run_C10(ctx, R):
         return lambda units, r: rule(with_inlined(units, 'cJSON.c', 'cJSON_ParseWithLengthOpts'), r)
     _per_config(ctx, R, entry_view(only_entry))
     _per_config(ctx, R, entry_view(parse.c10_structure))
+    _per_config(ctx, R, entry_view(parse.ent1))
     _per_config(ctx, R, _inl(parse.tab22))
     _per_config(ctx, R, parse.tab2_parse)
 
@@ -488,6 +489,8 @@ def run_C04(ctx, R):
     _per_config(ctx, R, lambda units, r: numcls.num4(units, r, unit_names=('cJSON.c',)))
     from .rules import bnd as _bnd
     _per_config(ctx, R, _bnd.bnd4_all)          # a number whose text does not fit the scratch array is not printed at all
+    from .rules import parse as _parse5
+    _per_config(ctx, R, _parse5.num5)          # what is printed with 17 digits reads back as the same double only through a correctly rounding conversion
 
 
 def run_C05(ctx, R):
@@ -520,9 +523,12 @@ def run_C02(ctx, R):
     _per_config(ctx, R, _only_functions(lst.lst1, {'parse_array', 'parse_object'}, 'LST1', 2))
     _per_config(ctx, R, parse.tab1_depth_balance)
     _per_config(ctx, R, _inl(parse.tab1_bound))
+    from .specialize import with_inlined
+    _per_config(ctx, R, lambda units, r: parse.ent1(with_inlined(units, 'cJSON.c', 'cJSON_ParseWithLengthOpts'), r))
     from .rules import parse as _parse
     _per_config(ctx, R, _parse.num2)
     _per_config(ctx, R, _parse.num3)
+    _per_config(ctx, R, _parse.num5)
 
 
 def run_C03(ctx, R):
